@@ -91,6 +91,18 @@ type zzBN struct {
 	blk     *capella.BeaconBlock
 	randaos [][]byte // RANDAO reveals the beacon node was given
 	blocks  []zzBlockSubmit
+	// aggregator / sync-committee roles
+	agg         *phase0.AggregateAndProof
+	selProofs   [][]byte // selection proofs the beacon node was given
+	aggSubmits  []*phase0.SignedAggregateAndProof
+	syncRoot    phase0.Root
+	syncSubmits []*altair.SyncCommitteeMessage
+	// sync-committee contribution role
+	contribs       *spectypes.Contributions
+	contribProofs  [][]phase0.BLSSignature // selection proofs the beacon node was given, per request
+	contribSubnets [][]uint64
+	contribSubmits []*altair.SignedContributionAndProof
+	notAggregator  map[byte]bool // selection proofs (by subnet id in the model root) that do not make the validator an aggregator
 }
 
 type zzBlockSubmit struct {
@@ -121,19 +133,40 @@ func (b *zzBN) SubmitBlindedBeaconBlock(block *api.VersionedBlindedProposal, sig
 	return nil
 }
 func (b *zzBN) SubmitAggregateSelectionProof(slot phase0.Slot, ci phase0.CommitteeIndex, cl uint64, idx phase0.ValidatorIndex, sig []byte) (ssz.Marshaler, spec.DataVersion, error) {
-	return nil, 0, nil
+	b.selProofs = append(b.selProofs, sig)
+	if b.agg == nil {
+		return nil, 0, errors.New("zz: no aggregate")
+	}
+	return b.agg, spec.DataVersionPhase0, nil
 }
-func (b *zzBN) SubmitSignedAggregateSelectionProof(msg *phase0.SignedAggregateAndProof) error { return nil }
+func (b *zzBN) SubmitSignedAggregateSelectionProof(msg *phase0.SignedAggregateAndProof) error {
+	b.aggSubmits = append(b.aggSubmits, msg)
+	return nil
+}
 func (b *zzBN) GetSyncMessageBlockRoot(slot phase0.Slot) (phase0.Root, spec.DataVersion, error) {
-	return phase0.Root{}, 0, nil
+	return b.syncRoot, spec.DataVersionPhase0, nil
 }
-func (b *zzBN) SubmitSyncMessage(msg *altair.SyncCommitteeMessage) error          { return nil }
-func (b *zzBN) IsSyncCommitteeAggregator(proof []byte) (bool, error)              { return false, nil }
-func (b *zzBN) SyncCommitteeSubnetID(index phase0.CommitteeIndex) (uint64, error) { return 0, nil }
+func (b *zzBN) SubmitSyncMessage(msg *altair.SyncCommitteeMessage) error {
+	b.syncSubmits = append(b.syncSubmits, msg)
+	return nil
+}
+func (b *zzBN) IsSyncCommitteeAggregator(proof []byte) (bool, error) {
+	// model signature layout: root at 16..47; the selection-data root carries the subcommittee index at [3]
+	return len(proof) >= 48 && !b.notAggregator[proof[16+3]], nil
+}
+func (b *zzBN) SyncCommitteeSubnetID(index phase0.CommitteeIndex) (uint64, error) { return uint64(index), nil }
 func (b *zzBN) GetSyncCommitteeContribution(slot phase0.Slot, sp []phase0.BLSSignature, ids []uint64) (ssz.Marshaler, spec.DataVersion, error) {
-	return nil, 0, nil
+	b.contribProofs = append(b.contribProofs, sp)
+	b.contribSubnets = append(b.contribSubnets, ids)
+	if b.contribs == nil {
+		return nil, 0, errors.New("zz: no contributions")
+	}
+	return b.contribs, spec.DataVersionPhase0, nil
 }
-func (b *zzBN) SubmitSignedContributionAndProof(c *altair.SignedContributionAndProof) error { return nil }
+func (b *zzBN) SubmitSignedContributionAndProof(c *altair.SignedContributionAndProof) error {
+	b.contribSubmits = append(b.contribSubmits, c)
+	return nil
+}
 func (b *zzBN) SubmitValidatorRegistration(pk []byte, fr bellatrix.ExecutionAddress, sig phase0.BLSSignature) error {
 	b.regs = append(b.regs, sig)
 	return nil
@@ -245,6 +278,29 @@ func zzETHSigningRoot(obj ssz.HashRoot, domain phase0.Domain) ([32]byte, error) 
 	case spectypes.SSZUint64:
 		r[0] = 0xB3
 		r[1], r[2], r[3] = byte(o), byte(o>>8), byte(o>>16)
+	case spectypes.SSZBytes:
+		r[0] = 0xB4
+		r[1] = byte(len(o))
+		if len(o) > 1 {
+			r[2], r[3] = o[0], o[1]
+		}
+	case *phase0.AggregateAndProof:
+		r[0] = 0xB5
+		r[1], r[2] = byte(o.AggregatorIndex), o.SelectionProof[0]
+		if o.Aggregate != nil && o.Aggregate.Data != nil {
+			r[3] = byte(o.Aggregate.Data.Slot)
+		}
+	case *altair.SyncAggregatorSelectionData:
+		r[0] = 0xB6
+		r[1], r[2] = byte(o.Slot), byte(o.Slot>>8)
+		r[3] = byte(o.SubcommitteeIndex)
+	case *altair.ContributionAndProof:
+		r[0] = 0xB7
+		r[1] = byte(o.AggregatorIndex)
+		r[2], r[3] = o.SelectionProof[0], o.SelectionProof[1]
+		if o.Contribution != nil {
+			r[4], r[5], r[6] = byte(o.Contribution.Slot), byte(o.Contribution.SubcommitteeIndex), o.Contribution.BeaconBlockRoot[0]
+		}
 	case *phase0.VoluntaryExit:
 		r[0] = 0xB2
 		r[1], r[2], r[3] = byte(o.Epoch), byte(o.Epoch>>8), byte(o.Epoch>>16)
